@@ -186,3 +186,41 @@ def diff_rows(ra, rb, cols, rel=None):
                 pass
         out.append(c)
     return out
+
+
+
+def make_knife_edge_contest(spec, ops, cut, contest, target_margin):
+    """Turns one contest into a knife-edge: every unit of it has reported in full at time `cut` and the contest's counted
+    normalised margin is (as close as whole votes allow to) `target_margin`.  Mutates world truth; returns the new op list."""
+    from nightsim.night import feed_row
+
+    world = spec["world"]
+    mem = [b for b in world["baseline"] if (f"{b['postal_code']}_{b['district']}" if world["district_election"] else b["postal_code"]) == contest]
+    tot_two = sum(world["truth"][b["geographic_unit_fips"]]["dem"] + world["truth"][b["geographic_unit_fips"]]["gop"] for b in mem)
+    cur = sum(world["truth"][b["geographic_unit_fips"]]["dem"] - world["truth"][b["geographic_unit_fips"]]["gop"] for b in mem)
+    if target_margin == 0 and tot_two % 2 == 1 and mem:
+        t0 = world["truth"][mem[0]["geographic_unit_fips"]]
+        t0["gop"] += 1
+        t0["turnout"] = max(t0["turnout"], t0["dem"] + t0["gop"])
+        tot_two += 1
+        cur -= 1
+    shift = int(round((target_margin * tot_two - cur) / 2.0))  # move `shift` votes from gop to dem (keeps two-party totals)
+    for b in sorted(mem, key=lambda b: -(world["truth"][b["geographic_unit_fips"]]["dem"] + world["truth"][b["geographic_unit_fips"]]["gop"])):
+        t = world["truth"][b["geographic_unit_fips"]]
+        mv = max(-t["dem"], min(t["gop"], shift))
+        t["dem"] += mv
+        t["gop"] -= mv
+        shift -= mv
+        if shift == 0:
+            break
+    ids = {b["geographic_unit_fips"] for b in mem}
+    ops = [o for o in ops if o.get("u") not in ids]
+    for b in mem:
+        t = world["truth"][b["geographic_unit_fips"]]
+        ops.append(dict(t=round(cut, 3), k="deliver", u=b["geographic_unit_fips"], ver=99,
+                        row=feed_row(b, dict(pev=100, dem=t["dem"], gop=t["gop"], turnout=max(t["turnout"], t["dem"] + t["gop"])))))
+    mp = spec["profile"]["model_parameters"]
+    mp["turnout_factor_lower"], mp["turnout_factor_upper"] = 0.01, 100.0
+    mp.pop("unit_blocklist", None)
+    mp.pop("postal_code_blocklist", None)
+    return ops
